@@ -1,6 +1,9 @@
 import Usual.C12.Spec
 import UsualProofs.C12.Refine
 /-! The per-function lemmas assembled into statements about `step` on slot states. -/
+set_option linter.unusedSimpArgs false
+set_option linter.unusedVariables false
+
 namespace UsualProofs.C12
 open Usual.C12
 
